@@ -63,6 +63,8 @@ def storage_histories(mode, tier, seed):
             hs[-1]["ops"].append({"op": "vacuum"})
             hs[-1]["ops"].append({"op": "tx", "ops": [["CreateNode", "777001", "V"]]})
             hs[-1]["ops"].append({"op": "reopen", "how": "drop"})
+        for i in range(n // 2):
+            hs.append(gen.gen_vacuum_deep(seed * 920011 + i, "vac-deep/%d" % i))
     return hs
 
 
